@@ -79,6 +79,17 @@ func reshape(r *core.Rand, p *workflow.Plan) {
 	}
 }
 
+var ctx = context.Background()
+
+// closeVault closes the vault, unless a call into it never returned.
+func closeVault(b *storelib.Backend, rec *storelib.Rec) {
+	if rec != nil && rec.Dead {
+		b.Abandon()
+		return
+	}
+	b.Close(ctx)
+}
+
 func main() {
 	nOps := flag.Int("oplists", 48, "number of operation-list cases")
 	nSingle := flag.Int("singles", 60, "number of create+read cases with big plans")
@@ -93,7 +104,6 @@ func main() {
 		os.Exit(2)
 	}
 	defer w.Close()
-	ctx := context.Background()
 	root := core.NewRand(core.Seed())
 	bks := strings.Split(*backends, ",")
 
@@ -183,7 +193,7 @@ func main() {
 			Note:     rec.Note(),
 		}
 		w.Put(c)
-		b.Close(ctx)
+		closeVault(b, rec)
 	}
 }
 
